@@ -794,9 +794,20 @@ def estimate_symbolic_duration(
             normal_notes = 2
             while (normal_notes * STRAIGHT_DURS[i + 1] / qdur) % 1 > eps:
                 normal_notes += 1
+            actual_notes = int(round(normal_notes * STRAIGHT_DURS[i + 1] / qdur))
+            # the guess must reproduce the duration (up to floating point noise)
+            if (
+                np.abs(dur - div * STRAIGHT_DURS[i + 1] * normal_notes / actual_notes)
+                >= eps * 1e-3
+            ):
+                warnings.warn(
+                    f"Quarter duration {qdur} from {dur}/{div} is not a tuplet or composite duration."
+                    f"Returning empty symbolic duration."
+                )
+                return {}
             return {
                 "type": type,
-                "actual_notes": math.ceil(normal_notes * STRAIGHT_DURS[i + 1] / qdur),
+                "actual_notes": actual_notes,
                 "normal_notes": normal_notes,
             }
 
